@@ -75,6 +75,10 @@ def Msg.isModule : Msg → Bool
 def Msg.isRule : Msg → Bool
   | .ruleMatching _ => true | .ruleNotMatching _ => true | _ => false
 
+/-- the rule a rule message is about -/
+def Msg.ruleIdx : Msg → Nat
+  | .ruleMatching i => i | .ruleNotMatching i => i | _ => 0
+
 /-- does answer `a` to message `m` end the scan, and with which return code -/
 def verdict (m : Msg) (a : Ret) : Option Rc :=
   if m.isRule then
@@ -111,6 +115,6 @@ def answer (script : List Ret) (k : Nat) : Ret := script.getD k .cont
 
 /-- no answer ended the scan -/
 def NotStopped (tr : List Msg) (script : List Ret) : Prop :=
-  ∀ k (h : k < tr.length), verdict tr[k] (answer script k) = none
+  ∀ (k : Nat) (m : Msg), tr[k]? = some m → verdict m (answer script k) = none
 
 end YaraModel.Cb
